@@ -9,8 +9,8 @@ class C01Suite(cc.ChainSuite):
 
     def gen_cases(self, rng, tier):
         if tier == "quick":
-            return cc.gen_random(rng, 1500, 1, 4, 0, 2)
-        return cc.gen_random(rng, 20000, 1, 4, 0, 3) + [c for c in cc.gen_exhaustive_pairs(11)
+            return cc.gen_random(rng, 1300, 1, 4, 0, 2) + cc.gen_random(rng, 200, 0, 0, 0, 3)
+        return cc.gen_random(rng, 20000, 1, 4, 0, 3) + cc.gen_random(rng, 2000, 0, 0, 0, 3) + [c for c in cc.gen_exhaustive_pairs(11)
                                                        if c["lines"][1].startswith("r") and c["lines"][2][0] in "rd"]
 
     def oracle(self, case, out):
